@@ -57,6 +57,9 @@ CHECKS = {
             {"name": "c15", "run": "^TestC15_", "shards": {"quick": 8, "thorough": 16},
              "timeout": {"quick": 600, "thorough": 3000},
              "checks": ["c15-backoff", "c15-reconnect", "c15-stream-order", "c15-close-stops", "c15-retry-queue"]},
+            {"name": "c15rc", "run": "^TestC15RC_", "shards": {"quick": 8, "thorough": 16},
+             "timeout": {"quick": 600, "thorough": 3000},
+             "checks": ["c15-restart-while-down"]},
         ],
     },
     "C16": {
